@@ -188,6 +188,32 @@ class Shift(object):
         return with_consts((n + add, frozenset(kws) | frozenset(self.names), fo), call)
 
 
+class Hidden(object):
+    """The call as seen by the masked signature when the masking call site also passes *hidden*
+    arguments: ``set_n`` replaces the positional count (hide_args: the hidden star supplies all
+    positionals), ``add_n`` adds trailing positionals, ``names`` adds keywords, ``fo`` forces a
+    foreign keyword."""
+    def __init__(self, term=None, set_n=None, add_n=0, names=(), fo=False):
+        self.term = term or Base(); self.set_n = set_n; self.add_n = add_n
+        self.names = tuple(names); self.fo = fo
+
+    def z3(self, env):
+        import z3
+        n, kw, fo = self.term.z3(env)
+        kw = dict(kw)
+        for x in self.names:
+            kw[x] = z3.BoolVal(True)
+        if self.set_n is not None:
+            n = z3.IntVal(self.set_n)
+        return n + self.add_n, kw, (z3.BoolVal(True) if self.fo else fo)
+
+    def real(self, call):
+        n, kws, fo = self.term.real(call)[:3]
+        if self.set_n is not None:
+            n = self.set_n
+        return with_consts((n + self.add_n, frozenset(kws) | frozenset(self.names), fo or self.fo), call)
+
+
 def call_consts(call):
     return call[3] if len(call) > 3 else {}
 
